@@ -241,7 +241,7 @@ def replay(ctx, plans, sopath, nproc):
     from concurrent.futures.process import BrokenProcessPool
     mdir = os.path.join(ctx.workdir, "markers"); os.makedirs(mdir, exist_ok=True)
     chunks = [c + (mdir,) for c in chunks]
-    limit = 300 if ctx.quick else 2400
+    limit = 900 if ctx.quick else 7200       # generous: the machine may be shared (normal: < 1 min / a few minutes)
     deadline = time.time() + limit
     fork = multiprocessing.get_context("fork")
     ex = concurrent.futures.ProcessPoolExecutor(nproc, mp_context=fork)
@@ -879,7 +879,7 @@ def run(ctx):
         return replay_one(ctx, L)
     quick = ctx.quick
     # a check always terminates: overall wall-clock cap
-    cap = 840 if quick else 3300
+    cap = 2400 if quick else 16000           # normal: ~1 min / ~5 min; generous because the machine may be shared
     def too_long():
         try:
             ctx.violation("hang:check:wall-clock", "the check did not finish within %d s; see the log for the phase that was running" % cap,
@@ -984,13 +984,13 @@ def run_body(ctx, L, quick):
     ctx.log("glue judged %d file x decoder combinations" % nj)
     nc = run_cli(ctx, plans)
     ctx.log("ran %d tool invocations" % nc)
-    ne = isolated(ctx, "lzma-encoder-clause", encoder_clause, (), 300 if quick else 900)
+    ne = isolated(ctx, "lzma-encoder-clause", encoder_clause, (), 900 if quick else 5400)
     boundary_clause(ctx)
     splans = plans_from_tlc(res["GenFormatSeq"].out)
     splans.sort(key=lambda p: json.dumps(p, sort_keys=True))
     if len(splans) < 500:
         raise MachineryError("sequence plan generation produced only %d plans\n%s" % (len(splans), res["GenFormatSeq"].out[-1500:]))
-    ns = isolated(ctx, "re-used-handle-replay", replay_sequences, (splans,), 300 if quick else 1500) or 0
+    ns = isolated(ctx, "re-used-handle-replay", replay_sequences, (splans,), 900 if quick else 7200) or 0
     ncs = cli_sequences(ctx, splans)
     ctx.log("re-use: %d sequences of 2-3 files on one re-initialised handle (%d decoder runs), %d multi-file tool invocations" % (
         len(splans), ns, ncs))
